@@ -75,6 +75,10 @@ theorem inplace_entry_out {r : Result} (h : trimDisconnected C n labels nsub fal
 
 /-! ### paths between states of one SCC stay inside it -/
 
+theorem edge_congr {C C' : Nat → Nat → Nat} {thr : Int} {a b a' b' : Nat} (h : C a b = C' a' b') :
+    edge C thr a b = edge C' thr a' b' := by
+  simp only [edge, h]
+
 theorem rtg_lift {α β : Type} {r : α → α → Prop} {p : β → β → Prop} (f : α → β)
     (h : ∀ a b, r a b → p (f a) (f b)) {a b : α} (hab : Relation.ReflTransGen r a b) :
     Relation.ReflTransGen p (f a) (f b) := by
@@ -117,9 +121,8 @@ theorem inplace_strongly_connected (v : Valid n (edge C thr) labels nsub) {r : R
   rintro a b ⟨⟨ha, hb, hab⟩, hak, hbk⟩
   refine ⟨ha, hb, ?_⟩
   rw [← hk] at hak hbk
-  unfold edge at hab ⊢
   simp only [id]
-  rw [inplace_entry_in h hak hbk]; exact hab
+  rw [edge_congr (inplace_entry_in h hak hbk)]; exact hab
 
 theorem renumber_strongly_connected (v : Valid n (edge C thr) labels nsub) {r : Result}
     (h : trimDisconnected C n labels nsub true = .ok r) {a b : Nat}
@@ -138,8 +141,9 @@ theorem renumber_strongly_connected (v : Valid n (edge C thr) labels nsub) {r : 
     have hx := List.idxOf_lt_length_of_mem hxk
     have hy := List.idxOf_lt_length_of_mem hyk
     refine ⟨hx, hy, ?_⟩
-    unfold edge at hxy ⊢
-    rw [renumber_entry h hx hy, List.getElem_idxOf, List.getElem_idxOf]; exact hxy
+    rw [edge_congr (C' := C) (a' := x) (b' := y)
+      (by rw [renumber_entry h hx hy, List.getElem_idxOf, List.getElem_idxOf])]
+    exact hxy
 
 /-- removed states carry no edge at all in the in-place result -/
 theorem inplace_no_edge_out {r : Result} (h : trimDisconnected C n labels nsub false = .ok r)
